@@ -77,13 +77,18 @@ def bounds(a):
 
 
 class Interval:
-    def __init__(self, body):
+    def __init__(self, body, params=None):
         self.body = body
         self.entry = {}  # bb -> state dict: key -> intervals ; key = local int or (local, field)
         self.preds = {}  # (bb) not needed: predicates are derived per block from defs
         self.iterations = {}
         self.wraps = []
         self._cur_line = None
+        # intervals of the parameters on entry (from the call sites of a private helper), {local: intervals}
+        self.params = dict(params or {})
+        # (state) on every edge into a return block, before the join: lets a caller read off which parameter
+        # values lead to which returned constant
+        self.return_states = []
         self.run()
         # wraps are collected during fixpoint iteration: keep distinct lines
         self.wrap_lines = sorted({w[0] for w in self.wraps if w[0] is not None})
@@ -259,14 +264,36 @@ class Interval:
             pt = body.blocks[preds[0]]["term"]
             if pt["k"] == "call" and not pt["dest"]["pr"] and pt["dest"]["l"] == local:
                 f = fn_of(pt)
-                if f and f["def"].endswith("RangeInclusive::<Idx>::contains") or (f and "RangeInclusive" in f["def"] and f["name"] == "contains"):
-                    rng = self._const_behind(preds[0], pt["args"][0])
-                    var = self._local_behind(preds[0], pt["args"][1])
-                    if rng and var is not None and rng.get("ref_struct", "").endswith("RangeInclusive") and rng.get("ref_fields_complete"):
-                        fl = rng["ref_fields"]
-                        return ("in", var, fl["start"], fl["end"])
+                cp = self.contains_pred(preds[0], pt)
+                if cp is not None:
+                    return cp
                 if f and f["name"] == "is_empty":
                     return None
+                # a same-crate `fn(x: uN) -> bool` whose answer is a function of x alone: the set of x it accepts
+                summ = bool_summary(body.crate, f) if f else None
+                if summ is not None and len(pt["args"]) == 1:
+                    var = self._local_behind(preds[0], pt["args"][0])
+                    if var is None and is_place(pt["args"][0]) and not pt["args"][0]["p"]["pr"]:
+                        var = pt["args"][0]["p"]["l"]
+                    if var is not None:
+                        return ("inset", var, summ[0], summ[1], pt["args"][0])
+        return None
+
+    def contains_pred(self, bb, pt):
+        """("in", var, lo, hi) when the call is `<constant range>.contains(&var)` (Range or RangeInclusive)."""
+        f = fn_of(pt)
+        if not (f and f.get("name") == "contains" and ("std::ops::Range" in f.get("def", "")) and len(pt["args"]) == 2):
+            return None
+        rng = self._const_behind(bb, pt["args"][0])
+        var = self._local_behind(bb, pt["args"][1])
+        if not (rng and var is not None and rng.get("ref_fields_complete")):
+            return None
+        fl = rng["ref_fields"]
+        kind = rng.get("ref_struct", "")
+        if kind.endswith("RangeInclusive"):
+            return ("in", var, fl["start"], fl["end"])
+        if kind.endswith("::Range"):
+            return ("in", var, fl["start"], fl["end"] - 1)
         return None
 
     def _const_behind(self, bb, op):
@@ -308,6 +335,24 @@ class Interval:
             return st
         if pred[0] == "not":
             return self.refine(st, pred[1], not truth)
+        if pred[0] == "inset":
+            _, var, tset, fset, arg = pred
+            want = tset if truth else fset
+            targets = [var]
+            # the argument is usually a fresh copy of the variable made in the predecessor block
+            if is_place(arg) and not arg["p"]["pr"] and arg["p"]["l"] != var:
+                targets.append(arg["p"]["l"])
+            ds = self.body.whole_defs(var)
+            if len(ds) == 1 and ds[0][2] == "assign" and ds[0][3]["rv"]["k"] == "use" and is_place(ds[0][3]["rv"]["op"]) and not ds[0][3]["rv"]["op"]["p"]["pr"]:
+                targets.append(ds[0][3]["rv"]["op"]["p"]["l"])
+            for v_ in targets:
+                cur = st.get(v_)
+                r = self.ty_range(v_)
+                base = cur if cur is not None else ((r,) if r else None)
+                if base is None:
+                    continue
+                st[v_] = norm([(max(x, lo), min(y, hi)) for x, y in base for lo, hi in want])
+            return st
         if pred[0] == "in":
             _, var, lo, hi = pred
             cur = st.get(var)
@@ -470,8 +515,9 @@ class Interval:
 
     def run(self):
         body = self.body
-        self.entry = {0: {}}
+        self.entry = {0: dict(self.params)}
         self.threaded = {}
+        ret_blocks = set(body.return_blocks())
         work = [0]
         count = {}
         while work:
@@ -487,6 +533,8 @@ class Interval:
                         break
                     self.threaded[succ] = self.join(self.threaded[succ], s2) if succ in self.threaded else dict(s2)
                     succ = nxt
+                if succ in ret_blocks:
+                    self.return_states.append(dict(s2))
                 if succ not in self.entry:
                     self.entry[succ] = s2
                     work.append(succ)
@@ -524,3 +572,112 @@ class Interval:
         for s in self.body.blocks[bb]["stmts"]:
             self.transfer_stmt(st, s)
         return self.val(st, op)
+
+
+_SUMMARIES = {}
+
+
+def bool_summary(crate, f):
+    """(accepted, rejected) interval sets of the single integer parameter of a same-crate `fn(x) -> bool` whose
+    result depends on x alone (every return edge yields a constant, and the two sets are disjoint); else None."""
+    fid = (f or {}).get("resolved") or (f or {}).get("def")
+    if not f or not f.get("local") or fid is None:
+        return None
+    key = (id(crate), fid)
+    if key in _SUMMARIES:
+        return _SUMMARIES[key]
+    _SUMMARIES[key] = None
+    b = crate.by_id.get(fid)
+    if b is None or b.nargs != 1 or b.local_ty(0) != "bool" or b.local_ty(1).lstrip("&") not in INT_RANGE:
+        return None
+    if b.local_ty(1).startswith("&"):
+        return None
+    # no calls other than further summarised helpers / contains
+    iv = Interval(b)
+    r = INT_RANGE[b.local_ty(1)]
+    tset, fset = [], []
+    if not iv.return_states:
+        return None
+    # `fn f(x) -> bool { (A..B).contains(&x) }`: the call's result is the return value itself
+    direct = [(bb, t) for bb, t in b.calls() if not t["dest"]["pr"] and t["dest"]["l"] == 0]
+    if len(direct) == 1 and len(list(b.calls())) == 1:
+        cp = iv.contains_pred(direct[0][0], direct[0][1])
+        if cp is not None and cp[1] == 1:
+            lo, hi = max(cp[2], r[0]), min(cp[3], r[1])
+            _SUMMARIES[key] = (norm([(lo, hi)]), remove((r,), lo, hi, r))
+            return _SUMMARIES[key]
+        return None
+    for st in iv.return_states:
+        ret = st.get(0)
+        px = st.get(1)
+        if px is None:
+            px = (r,)
+        if ret == ((1, 1),):
+            tset += list(px)
+        elif ret == ((0, 0),):
+            fset += list(px)
+        else:
+            return None
+    tset, fset = norm(tset), norm(fset)
+    for lo, hi in tset:
+        for lo2, hi2 in fset:
+            if max(lo, lo2) <= min(hi, hi2):
+                return None
+    # only arithmetic-free bodies are summarised: a call with side effects would make the answer depend on more
+    for _, t in b.calls():
+        tf = fn_of(t) or {}
+        if not (tf.get("name") == "contains" or bool_summary(crate, tf) is not None):
+            return None
+    _SUMMARIES[key] = (tset, fset)
+    return _SUMMARIES[key]
+
+
+_FOR_BODY = {}
+
+
+def for_body(b, _depth=0):
+    """Interval analysis of a body; for a private helper whose every use is a direct call from this crate, the
+    parameters start with the union of the argument intervals at its call sites (one level of context)."""
+    key = (id(b.crate), b.id)
+    if key in _FOR_BODY:
+        return _FOR_BODY[key]
+    params = {}
+    crate = b.crate
+    private = b.raw.get("vis") not in ("Public",) and not b.raw.get("impl_trait") and b.raw["def_kind"] in ("Fn", "AssocFn")
+    if private and _depth < 2 and b.nargs:
+        sites = []
+        escaped = False
+        for cb in crate.bodies:
+            for bi, blk in enumerate(cb.blocks):
+                for s_ in blk["stmts"]:
+                    if s_["k"] == "assign":
+                        rv = s_["rv"]
+                        for o in [rv.get("op")] + list(rv.get("ops", [])):
+                            if isinstance(o, dict) and o.get("k") == "fn" and o.get("def") == b.id:
+                                escaped = True
+                t = blk["term"]
+                if t["k"] == "call":
+                    f = fn_of(t) or {}
+                    if (f.get("resolved") or f.get("def")) == b.id:
+                        sites.append((cb, bi, t))
+                    if any(a.get("k") == "fn" and a.get("def") == b.id for a in t["args"]):
+                        escaped = True
+        if sites and not escaped and all(cb.id != b.id for cb, _, _ in sites):
+            _FOR_BODY[key] = None  # recursion guard
+            for i in range(1, b.nargs + 1):
+                ty = b.local_ty(i)
+                if ty not in INT_RANGE:
+                    continue
+                acc = ()
+                for cb, bi, t in sites:
+                    civ = for_body(cb, _depth + 1) or Interval(cb)
+                    v = civ.at_call(bi, t["args"][i - 1]) if len(t["args"]) >= i else None
+                    if v is None:
+                        acc = None
+                        break
+                    acc = union(acc, v) if acc != () else v
+                if acc not in (None, ()):
+                    params[i] = acc
+    iv = Interval(b, params=params)
+    _FOR_BODY[key] = iv
+    return iv
